@@ -12,6 +12,8 @@ two the source in /repo is and runs the correspondence check against that varian
 import Osmium.Lemmas.BufBridgeSeq
 import Osmium.Lemmas.BufFieldLaws
 import Osmium.Lemmas.BufBuildFields
+import Osmium.Generated.Src
+import Osmium.Lemmas.CxxSem
 
 namespace Osmium.Buf.C04
 
@@ -482,5 +484,43 @@ theorem add_buffer_appends (s : St) (hd : s.dead = none) (hv : s.b0.valid = true
 theorem swap_swaps (s : St) (hd : s.dead = none) (hv : s.b0.valid = true) (he : s.stack = []) :
     (step s .swap).1.b0 = s.b1 ∧ (step s .swap).1.b1 = s.b0 := by
   simp [step, hd, hv, he, frameSig, plan, execBufOp]
+
+/-! ### source ties (tools/cxx2lean.py): the functions REGENERATED from /repo's C++ source on every run
+    (Osmium/Generated/Src.lean) equal the hand-written model functions the theorems above are about. -/
+
+section SrcTies
+open Osmium.Generated Osmium.CxxSem
+
+/-- `osmium::memory::padded_length` (memory/item.hpp) = `Layout.padded`, on every length for which the
+    unsigned 64-bit sum `length + align_bytes - 1` does not wrap (beyond that the C++ function wraps to a
+    small value and the model does not: the model's domain is sizes that fit a buffer) -/
+theorem src_tie_padded_length (n : Nat) (h : n + 7 < 2 ^ 64) :
+    Src.Item.padded_length (n : Int) = (Layout.padded n : Int) := by
+  unfold Src.Item.padded_length
+  rw [band_congr_nat (n + 7) 18446744073709551608, and_not7 _ h]
+  · rfl
+  · simp only [wrapU, Src.Item.align_bytes]; omega
+  · simp only [wrapU, bnot, Src.Item.align_bytes]; omega
+
+example : ∃ n : Nat, n + 7 < 2 ^ 64 := ⟨1000, by decide⟩
+
+/-- `Buffer::calculate_capacity` (memory/buffer.hpp) = `Buf.calcCap` -/
+theorem src_tie_calculate_capacity (c : Nat) (h : c + 7 < 2 ^ 64) :
+    Src.Buffer.Buffer.calculate_capacity (c : Int) = (calcCap c : Int) := by
+  unfold Src.Buffer.Buffer.calculate_capacity calcCap minCapacity
+  rw [src_tie_padded_length c h]
+  simp only [Src.Buffer.Buffer.calculate_capacity.min_capacity, lt]
+  by_cases hc : c < 64
+  · have : ((c : Int) < 64) := by omega
+    simp [hc, this]
+  · have : ¬ ((c : Int) < 64) := by omega
+    simp [hc, this]
+
+/-- neither function has undefined behaviour (all arithmetic is unsigned) -/
+theorem src_defined_padded_length (n : Int) :
+    Src.Item.padded_length_defined n = true ∧ Src.Buffer.Buffer.calculate_capacity_defined n = true := by
+  constructor <;> rfl
+
+end SrcTies
 
 end Osmium.Buf.C04
